@@ -22,7 +22,6 @@ theorem init_inv (wid n : Nat) : Inv (CW.init wid n) :=
       · intro ai i r h; simp [WM.arch, CW.init] at h
     pool := poolInv_of_pool_nil rfl
     shared := fun a ha => by simp [CW.init] at ha
-    closed := fun a ha => by simp [CW.init] at ha
     depsB := fun p hp => by simp [CW.init] at hp
     locsCover := Nat.le_refl _
     bufLe := by simp [CW.init]
@@ -141,5 +140,21 @@ def exHistory : List (Op Handle) :=
     .create 0 [2] [],
     .remove 0 (exH 1 0) 4,
     .clone (exH 2 0) ]
+
+/-- a LATE dependency declaration on a held master: entity 0 holds component 0, then `0 → 1` is declared (its
+archetype `[0]` is no longer closed); a deferred re-assignment of the held component (the entity stays in its
+archetype), `assignShared` (archetype lookup: the entity gains component 1), a removal the closure undoes, reads -/
+def exLateHistory : List (Op Handle) :=
+  [ .create 0 [0] [],
+    .dep 0 [1],
+    .lock,
+    .assign 0 (exH 0 0) 0 (some 5),
+    .unlock,
+    .get (exH 0 0) 0,
+    .has (exH 0 0) 1,
+    .sassign (exH 0 0) 7 3,
+    .has (exH 0 0) 1,
+    .remove 0 (exH 0 0) 1,
+    .get (exH 0 0) 0 ]
 
 end Mustache.Proofs.Refine
